@@ -198,6 +198,9 @@ func (e *Engine) addContractSet(cs *ContractSet, p *packages.Package) error {
 	}
 	for _, g := range cs.Ghosts {
 		if _, dup := e.ghosts[g.Name]; dup {
+			if g.Name == "spawned" {
+				continue // the goroutine counter may be declared by every package that uses it (same type: int)
+			}
 			return fmt.Errorf("duplicate ghost %s", g.Name)
 		}
 		e.ghosts[g.Name] = &GhostVar{Name: g.Name}
@@ -476,6 +479,10 @@ func (e *Engine) resolveGoType(s string, p *packages.Package, pos token.Pos) typ
 				}
 			}
 		}
+	}
+	// universe types ([]byte, map[string]int, ...)
+	if tv, err := types.Eval(e.fset, nil, token.NoPos, s); err == nil && tv.IsType() {
+		return tv.Type
 	}
 	panic(toolErr("cannot resolve type %q", s))
 }
